@@ -28,13 +28,18 @@ BOUNDSCHECK_TIERS = ("thorough",)
 
 
 def REQUIRED(tier):
-    return [f"t:{t}" for t in TRANSFORMS] + ["outputs_parsed", "outputs_compared", "spy:cwrite_calls", "regime:multi_block", "regime:subrange", "regime:multi_file_input", "regime:reader_with_history", "regime:single_read_over_64MiB", "regime:default_range_arguments", "regime:output_name_held_a_longer_file", "mask:nothing_flagged", "mask:non_finite_samples_in_masked_channels"]
+    return [f"t:{t}" for t in TRANSFORMS] + ["outputs_parsed", "outputs_compared", "spy:cwrite_calls", "regime:multi_block", "regime:subrange", "regime:multi_file_input", "regime:reader_with_history", "regime:single_read_over_64MiB", "regime:default_range_arguments", "regime:output_name_held_a_longer_file", "mask:nothing_flagged", "mask:non_finite_samples_in_masked_channels", "regime:trailing_zero_blocks", "regime:subband_over_257_channels_per_band"]
 
 
 def cases(tier, seed):
     yield {"t": "huge", "tfactor": 3, "gulp": 70001, "pseed": int(seed) * 100003 + 999983}
     if tier == "thorough":
         yield {"t": "huge", "tfactor": 5, "gulp": 10**9, "pseed": int(seed) * 100003 + 999979}
+    # products whose last blocks are all zero (blanked tail of a recording), and a wide band summed into one or two sub-bands
+    for i, (t, sp) in enumerate((("apply_channel_mask", "zero_tail"), ("extract_samps", "zero_tail"), ("apply_channel_mask", "all_zero"), ("downsample", "zero_tail"), ("invert_freq", "zero_tail"))):
+        yield {"t": t, "nbits": 8, "N": 3072, "nchans": 16, "split": [3072], "start": 0, "nsamps": 3072, "gulp": 512, "special": sp, "pseed": int(seed) * 100003 + 999900 + 20 * i}
+    for i, nsub in enumerate((1, 2)):
+        yield {"t": "subband", "nbits": 8, "N": 96, "nchans": 1024, "split": [96], "start": 0, "nsamps": 96, "gulp": 40, "special": "bright_wide", "nsub": nsub, "pseed": int(seed) * 100003 + 999800 + 20 * i}
     rng = np.random.default_rng([seed, 707])
     per = 60 if tier == "quick" else 1000
     k = 0
@@ -123,6 +128,12 @@ def _input(ctx, case):
         base = rng.integers(top // 3, 2 * top // 3 + 1, size=case["nchans"])
         noise = rng.integers(-max(1, top // 24), max(1, top // 24) + 1, size=X.shape) if top > 3 else (rng.random(X.shape) < 0.15).astype(int)
         X = np.clip(base + noise, 0, top).astype(X.dtype)
+    if case.get("special") in ("zero_tail", "all_zero"):
+        X[-(case["N"] // 3):] = 0
+        ctx.count("regime:trailing_zero_blocks")
+    if case.get("special") == "bright_wide":
+        X = rng.integers(150, 256, size=X.shape).astype(X.dtype)
+        ctx.count("regime:subband_over_257_channels_per_band")
     d = os.path.join(ctx.tmp, f"i{ctx.evaluations}")
     os.makedirs(d, exist_ok=True)
     paths = sigfile.write_split(d, X, case["nbits"], case["split"], fch1=1500.0, foff=-10.0, tsamp=1e-3)
@@ -220,6 +231,11 @@ def run_case(case, ctx):
                 mask[:] = False        # clean data: nothing is flagged, the product is still a complete copy of the requested range
                 ctx.count("mask:nothing_flagged")
             mval = int(rng.integers(0, min(2 ** min(nbits, 8), 64)))
+            if case.get("special") == "zero_tail":
+                mask[:] = False
+            if case.get("special") == "all_zero":
+                mask[:] = True
+                mval = 0
             if nbits == 32 and rng.random() < 0.5:   # any float is a legal fill for a 32-bit file
                 mval = float(rng.choice([-2.5, -0.75, -1000.0, 1.0e6, 0.125]))
             nonfin = nbits == 32 and mask.any() and case["pseed"] % 3 == 0
@@ -287,6 +303,8 @@ def run_case(case, ctx):
         elif t == "subband":
             nsub = int(rng.choice([s for s in (1, 2, 4, 8) if nch % s == 0]))
             dm = float(rng.choice([0.0, rng.uniform(0, 60)]))
+            if case.get("special") == "bright_wide":
+                nsub, dm = case["nsub"], 0.0
             delays = np.asarray(fil.header.get_dmdelays(dm)).reshape(-1).astype(np.int64)
             md = int(delays.max())
             if delays.min() < 0 or md >= nsamps:
